@@ -325,10 +325,10 @@ theorem C08_imports (t : List Row) : ∀ fn ∈ (emit t).fns, indentOK S4 false 
 section Example
 open Str
 def exT : List Row :=
-  [⟨ofString "S1", ofString "EvA", some (ofString "S2"), some (ofString "ActA"), some (ofString "G1")⟩,
-   ⟨ofString "S1", ofString "EvA", some (ofString "S3"), some (ofString "ActB"), none⟩,
-   ⟨ofString "S2", ofString "EvA", none, some (ofString "ActA"), none⟩,
-   ⟨ofString "S2", ofString "EvA", some (ofString "S1"), none, some (ofString "G1")⟩]
+  [⟨ofString "S1", ofString "EvA", some (ofString "S2"), some (ofString "ActA"), some (ofString "G1"), false⟩,
+   ⟨ofString "S1", ofString "EvA", some (ofString "S3"), some (ofString "ActB"), none, false⟩,
+   ⟨ofString "S2", ofString "EvA", none, some (ofString "ActA"), none, false⟩,
+   ⟨ofString "S2", ofString "EvA", some (ofString "S1"), none, some (ofString "G1"), false⟩]
 example : ofString "S3" ∈ states exT ∧ ofString "S3" ∉ sourceStates exT := by decide
 example : process (emit exT) (ofString "S1") (ofString "EvA") (fun _ => false)
     = (ofString "S3", [Cb.guard (ofString "G1"), Cb.exit (ofString "S1"), Cb.action (ofString "ActB") (ofString "EvA"), Cb.entry (ofString "S3")]) := by decide
